@@ -33,6 +33,45 @@ ORACLE_NAMES = ["nodes", "edges-sound", "edges-complete", "edge-keys-unique"]
 # implementation side
 # --------------------------------------------------------------------------
 
+STEPS = {
+    "build_disjunctive_graph": ["add_disjunctive_edges", "add_conjunctive_edges", "add_source_sink_nodes",
+                                "add_source_sink_edges"],
+    "build_agent_task_graph": ["add_machine_nodes", "add_operation_machine_edges", "add_machine_machine_edges",
+                               "add_same_job_operations_edges"],
+    "build_agent_task_graph_with_jobs": ["add_machine_nodes", "add_operation_machine_edges",
+                                         "add_machine_machine_edges", "add_job_nodes", "add_operation_job_edges",
+                                         "add_job_job_edges"],
+    "build_complete_agent_task_graph": ["add_machine_nodes", "add_operation_machine_edges", "add_job_nodes",
+                                        "add_operation_job_edges", "add_global_node", "add_machine_global_edges",
+                                        "add_job_global_edges"],
+}
+
+
+def build_by_route(name, instance, route):
+    """route 0: the builder function. Routes 1 / 2: the same graph assembled by hand from the documented public
+    building blocks, starting from JobShopGraph(instance, add_operation_nodes=False) and adding the operation nodes
+    with graph.add_operation_nodes() (1) or one graph.add_node(Node(OPERATION, operation=op)) per operation (2).
+    Every route must give the graph of the builder's definition."""
+    from job_shop_lib import graphs
+    from job_shop_lib.graphs import JobShopGraph, Node, NodeType
+
+    if not route:
+        return getattr(graphs, name)(instance)
+    g = JobShopGraph(instance, add_operation_nodes=False)
+    if route == 1:
+        g.add_operation_nodes()
+    else:
+        for job in instance.jobs:
+            for op in job:
+                g.add_node(Node(node_type=NodeType.OPERATION, operation=op))
+    from job_shop_lib.graphs import _build_agent_task_graph as _atg
+
+    for step in STEPS[name]:
+        # (add_job_job_edges is not re-exported by job_shop_lib.graphs; it is taken from its module)
+        (getattr(graphs, step, None) or getattr(_atg, step))(g)
+    return g
+
+
 def enc_node(node):
     from job_shop_lib.graphs import NodeType
 
@@ -265,6 +304,9 @@ class C16(Check):
                 if rng.random() < 0.25:
                     case["copy"] = rng.choice([1, 1, 2])
                     self.note("inspect_deep_copy")
+                if rng.random() < 0.2:
+                    case["route"] = rng.choice([1, 2])
+                    self.note("assembled_from_public_building_blocks")
             else:
                 positive = rng.random() < 0.85
                 spec = self.gen_spec(rng, positive=positive)
@@ -304,7 +346,7 @@ class C16(Check):
             built = []
             for name in BUILDERS:
                 try:
-                    built.append(getattr(graphs, name)(instance))
+                    built.append(build_by_route(name, instance, case.get("route", 0)))
                 except Exception:  # pylint: disable=broad-except
                     built.append(None)
             if case.get("other"):
@@ -533,6 +575,8 @@ class C16(Check):
                     c["earlier"] = (c["earlier"] + [[0, 0, 0]] * total)[:total]
             return c
 
+        if case.get("route"):
+            yield {k: v for k, v in case.items() if k != "route"}
         if case.get("copy"):
             yield {k: v for k, v in case.items() if k != "copy"}
         if case.get("earlier"):
